@@ -3,6 +3,7 @@
 -/
 import N2V.Model.World
 import N2V.Lemmas.Work
+import N2V.Lemmas.WorldClean
 namespace N2V.C03
 open N2V N2V.Work N2V.Load
 
@@ -94,5 +95,64 @@ theorem restat_touches_no_file (e : Env) (b : Nat) : (onAdopt e b).fs = e.fs := 
     split
     · exact key
     · exact key
+
+/-! ### The repeated build (whole invocations) -/
+
+/-- **A repeated build does nothing.**  For every manifest, tree, log, argument vector
+    (targets, `-j`, `-k`, `-t restat`) and every scheduling behaviour of the environment
+    (completion order, hash-set iteration order): if the manifest loads and every non-phony step
+    the invocation may consider — the closure of the manifest, the named targets / defaults / all
+    files — is up to date (`Work.UpToDate`: every dirtying input, discovered dependency and output
+    exists and the step's latest attributed record equals the manifest of the files as they are
+    now) then the invocation leaves tree, clock and log exactly as they were, starts and finishes
+    no command, does not reload, and a successful result reports 0 tasks (`n2: no work to do`).
+    The state an invocation leaves after a success is checked to be of this kind by the monitor
+    `settledAfterSuccess` on every implementation history (the same `UpToDate` definition,
+    evaluated on the real tree and log). -/
+theorem repeated_build_does_nothing (w : World) (a : InvArgs)
+    (obs1 obs2 : List (List Nat) × List (Nat × Sched.Term)) (l : Loader) (e0 : Env)
+    (hl : loadEnv w a.manifestName = .ok (l, e0))
+    (hu : AllUpToDate e0 (Run.Wanted (schedGraph e0.g) (argsOf l a))) :
+    (invoke w a obs1 obs2).1 = w ∧
+    commandEvents (invoke w a obs1 obs2).2.2 = [] ∧
+    (∀ n, (invoke w a obs1 obs2).2.1 = .done n → n = 0) :=
+  invoke_upToDate w a obs1 obs2 l e0 hl hu
+
+/-- The same at the level of `run::build`, for any environment whose stat cache is truthful. -/
+theorem up_to_date_build_runs_nothing (e0 : Env) (a : Run.Args) (adopt : Bool) (perms : List (List Nat))
+    (fin : List (Nat × Sched.Term))
+    (gok : Sched.GraphOK (schedGraph e0.g)) (dok : Sched.DepsOK (schedGraph e0.g)) (hc : Coh e0)
+    (hu : AllUpToDate e0 (Run.Wanted (schedGraph e0.g) a)) :
+    let r := Run.build (schedGraph e0.g) a (choices adopt perms fin) e0
+    Sched.sf r.1.trace = [Sched.Ev.load] ∧ r.1.tasksRun = 0 ∧ Grew e0 r.2.1 ∧
+    (∀ n, r.2.2 = .done n → n = 0) ∧ (∀ n, r.2.2 ≠ .reload n) :=
+  build_upToDate e0 a adopt perms fin gok dok hc hu
+
+/-- Non-vacuity: a two-file project (`build out: cc in`) whose record matches the tree satisfies
+    the hypothesis. -/
+def exBuild : BuildM :=
+  { loc := ⟨[], 1⟩, desc := none, cmdline := some [99, 99], depfile := none, showIncludes := false,
+    rspfile := none, pool := none, ins := [1], explicit := 1, implicit := 0, orderOnly := 0, outs := [2],
+    explicitOuts := 1, hideSuccess := false, hideProgress := false }
+
+def exEnv : Env :=
+  { g := { files := [⟨[109], none, []⟩, ⟨[105], none, [0]⟩, ⟨[111], some 0, []⟩], builds := [exBuild] },
+    disc := [], hashes := [(0, { ins := [([105], 7)], disc := [], cmd := [99, 99], rsp := none, outs := [([111], 9)] })],
+    cache := [], fs := [([105], ⟨7, []⟩), ([111], ⟨9, []⟩)], clock := 10, log := [] }
+
+example : AllUpToDate exEnv (fun _ => True) := by
+  refine ⟨?_, ?_⟩
+  · intro b bm _ hb _
+    cases b with
+    | zero =>
+      simp [buildOf, exEnv] at hb
+      subst hb
+      refine ⟨?_, by decide⟩
+      intro f hf
+      simp [BuildM.dirtying, discOf, assocGet, exEnv, exBuild] at hf
+      rcases hf with rfl | rfl <;> decide
+    | succ n => simp [buildOf, exEnv] at hb
+  · intro b bm _ hb _ f hf
+    simp [discOf, assocGet, exEnv] at hf
 
 end N2V.C03
